@@ -2,6 +2,7 @@ package main
 
 import (
 	"fmt"
+	"os"
 	"go/ast"
 	"go/constant"
 	"go/token"
@@ -330,6 +331,32 @@ func (f *Frame) loopEnv(li *loopInfo, st *State, phiVals map[*ssa.Phi]Term) map[
 // baseEnv: names visible at block b: params, free variables, results of DebugRefs that dominate b.
 func (f *Frame) baseEnv(b *ssa.BasicBlock, st *State) map[string]Val {
 	env := map[string]Val{}
+	// low priority: a use of the variable anywhere in the function, if the value it denotes is defined in
+	// a block dominating b (go/ssa attaches a nil constant to some `x := e` definitions)
+	if b != nil {
+		for _, blk := range f.fn.Blocks {
+			if blk == b || blk.Dominates(b) {
+				continue
+			}
+			for _, ins := range blk.Instrs {
+				d, ok := ins.(*ssa.DebugRef)
+				if !ok || d.IsAddr {
+					continue
+				}
+				name := debugName(d)
+				if name == "" {
+					continue
+				}
+				if xi, ok := d.X.(ssa.Instruction); ok && xi.Block() != nil && xi.Block() != b && xi.Block().Dominates(b) {
+					if v, ok := f.vals[d.X]; ok {
+						if _, have := env[name]; !have {
+							env[name] = v
+						}
+					}
+				}
+			}
+		}
+	}
 	for fr := f; fr != nil; fr = nil {
 		for _, blk := range fr.fn.Blocks {
 			if b != nil && !(blk == b || blk.Dominates(b)) {
@@ -343,9 +370,17 @@ func (f *Frame) baseEnv(b *ssa.BasicBlock, st *State) map[string]Val {
 					}
 					if name := debugName(d); name != "" {
 						if v, ok := fr.vals[d.X]; ok {
+							if os.Getenv("WV_DEBUG") != "" && name == "destinations" {
+								fmt.Fprintf(os.Stderr, "env %s := %q from %s (%T)\n", name, v.T.S, d.X.Name(), d.X)
+							}
 							env[name] = v
 						} else if c, ok := d.X.(*ssa.Const); ok {
-							env[name] = fr.constVal(c)
+							if os.Getenv("WV_DEBUG") != "" && name == "destinations" {
+								fmt.Fprintf(os.Stderr, "envC %s := const %v at %v\n", name, c, fr.un.posOf(d.Pos()))
+							}
+							if _, have := env[name]; !have {
+								env[name] = fr.constVal(c)
+							}
 						}
 					}
 				case *ssa.Alloc:
